@@ -302,6 +302,14 @@ def py_eq(eng, a, b, node=None, frame=None):
         return tv_bool(a.cls is b.cls)
     a = eng.to_tv(a)
     b = eng.to_tv(b)
+    if frame is not None and isinstance(frame_module(frame), tuple):
+        # inside specifications `==` is value equality on numbers/strings/None/enums and identity on
+        # objects; it never dispatches to a repository __eq__ (use explicit spec functions for that)
+        if a.sort in ("int", "bool") and b.sort in ("int", "bool"):
+            return tv_bool(a.as_int() == b.as_int())
+        if _is_num_sort(a) and _is_num_sort(b):
+            return tv_bool(a.as_real() == b.as_real())
+        return tv_bool(S.val_eq(a.val(), b.val()))
     if a.sort in ("int", "bool") and b.sort in ("int", "bool"):
         return tv_bool(a.as_int() == b.as_int())
     if _is_num_sort(a) and _is_num_sort(b):
@@ -1579,7 +1587,7 @@ def visit_dispatch(eng, recv, args, kwargs, node, frame):
                 break
             continue
         cond = eng.isinstance_exact(obj.val(), classes)
-        if run.quick_feasible(cond):
+        if run.quick_feasible(cond, strong=True):
             opts.append((cond, mname))
     if not opts:
         return eng.dead_value()
@@ -2107,16 +2115,21 @@ def length_of(eng, v, node, frame):
     res = clen
     conds.append(z3.Or(cont, S.is_VStr(t)))
     res = z3.If(S.is_VStr(t), z3.Length(S.sv(t)), res)
+    in_spec = isinstance(frame_module(frame), tuple) if frame is not None else False
     for fi, classes in groups.values():
+        if in_spec or run.prop_depth >= 3:
+            break       # specifications take len() of data containers only
         cond = eng.isinstance_exact(t, classes)
         if run.quick_feasible(cond):
             run.merge_depth += 1
+            run.prop_depth += 1
             run.cond_stack.append(cond)
             try:
                 val = eng.to_tv(eng.call_function(fi, [v], {}, self_cls=classes[0], node=node)).as_int()
             finally:
                 run.cond_stack.pop()
                 run.merge_depth -= 1
+                run.prop_depth -= 1
             res = z3.If(cond, val, res)
             conds.append(cond)
     eng.implicit_raise(z3.Not(z3.Or(conds)), "TypeError", node, "len() of unsized object")
@@ -2413,9 +2426,20 @@ def _patterns_for(body, k):
 
 
 def _mentions(e, k):
-    if e.eq(k):
-        return True
-    return any(_mentions(c, k) for c in e.children()) if z3.is_app(e) else False
+    seen = set()
+    stack = [e]
+    while stack:
+        t = stack.pop()
+        if t.get_id() in seen:
+            continue
+        seen.add(t.get_id())
+        if t.eq(k):
+            return True
+        if z3.is_app(t):
+            stack.extend(t.children())
+        elif z3.is_quantifier(t):
+            stack.append(t.body())
+    return False
 
 
 # ======================================================================== comprehensions
